@@ -311,7 +311,9 @@ func (e *emitter) call(c *ast.CallExpr, nested bool) {
 			ext = true
 		}
 	default:
+		// a computed function value is called (vm.throwFallback()(acl), closures returned by calls): foreign code
 		e.expr(c.Fun, nested)
+		ext = true
 	}
 	for _, a := range c.Args {
 		if id, ok := a.(*ast.Ident); ok && id.Name == e.recv {
